@@ -25,12 +25,12 @@ CASE_TIMEOUT_S = 10
 
 
 def _worker(args):
-    seed, n, prof, tag = args
+    seed, n, prof, tag, job = args
     rng = random.Random(seed)
     res = []
     signal.signal(signal.SIGALRM, _alarm)
     for i in range(n):
-        cid = "%s-%d-%d" % (tag, seed & 0xFFFFFF, i)
+        cid = "%s-%d-%d" % (tag, job, i)     # unique per run (job index, position)
         g = sched_gen.Gen(rng, prof)
         try:
             signal.alarm(CASE_TIMEOUT_S)
@@ -53,7 +53,7 @@ def gen_cases(ctx, prof, n, tag, shard=25):
     k = 0
     while k < n:
         m = min(shard, n - k)
-        jobs.append((ctx.rng.getrandbits(48), m, prof, tag))
+        jobs.append((ctx.rng.getrandbits(48), m, prof, tag, len(jobs)))
         k += m
     procs = min(len(jobs), os.cpu_count() or 1, 16)
     if procs <= 1:
